@@ -303,7 +303,7 @@ func c18BlobRun(idx int, c c18BlobCase) []c18.Step {
 		return false, 0, 0, false
 	}, nil)
 
-	for cid := 0; cid < 16; cid++ {
+	for cid := 0; cid < 32; cid++ {
 		rec.Register(cid, c18.ValidBytes(cid, rej[cid]))
 	}
 
@@ -666,7 +666,7 @@ func TestVerifC18Blob(t *testing.T) {
 		idx++
 	}
 
-	for _, c := range c18BlobCorpus() {
+	for _, c := range append(c18BlobCorpus(), c18.LoadCorpus[c18BlobCase]("blob")...) {
 		emit("corpus", c)
 	}
 
